@@ -12,6 +12,8 @@
    outcome and replayed on the real code with a scripted generator.      *)
 EXTENDS Integers, Sequences, FiniteSets, SequencesExt, FiniteSetsExt, Json, IOUtils, TLC
 
+VARIABLE cur      \* the case under examination (one TLC state per case)
+
 CONSTANTS Ks,        \* admissible exponents (multiples of 4); the value Dead stands for log L = -inf
                      \* (zero incremental weight: such a row may never be drawn)
           NMin, NMax,
@@ -54,20 +56,19 @@ Cases ==
        : ks \in {q \in UNION {[1..n -> Ks] : n \in NMin..NMax} : Live(q) # {}} }
 
 (* laws of the reference itself *)
-ProbsSumToOne == \A c \in Cases : SumSeq(c.wnum) = c.wden
-ProbsPositive == \A c \in Cases : \A i \in 1..Len(c.wnum) : (c.wnum[i] > 0) <=> (c.ks[i] # Dead)
-DrawnRowsLive == \A c \in Cases : \A r \in 1..Len(c.idx) : c.ks[c.idx[r]] # Dead
+ProbsSumToOne == \A c \in {cur} : SumSeq(c.wnum) = c.wden
+ProbsPositive == \A c \in {cur} : \A i \in 1..Len(c.wnum) : (c.wnum[i] > 0) <=> (c.ks[i] # Dead)
+DrawnRowsLive == \A c \in {cur} : \A r \in 1..Len(c.idx) : c.ks[c.idx[r]] # Dead
 \* a larger incremental log-weight never gets a smaller probability when moving up in temperature
-Monotone == \A c \in Cases : \A i, j \in 1..Len(c.ks) :
+Monotone == \A c \in {cur} : \A i, j \in 1..Len(c.ks) :
                (c.bt > c.bf /\ c.ks[i] # Dead /\ c.ks[j] # Dead /\ c.ks[i] >= c.ks[j]) => c.wnum[i] >= c.wnum[j]
-SameBetaUniform == \A c \in Cases : c.bt = c.bf => \A i \in 1..Len(c.wnum) : c.wnum[i] = 1
+SameBetaUniform == \A c \in {cur} : c.bt = c.bf => \A i \in 1..Len(c.wnum) : c.wnum[i] = 1
 
-ASSUME ProbsSumToOne /\ ProbsPositive /\ Monotone /\ SameBetaUniform /\ DrawnRowsLive
 ASSUME PrintT(<<"NCASES", Cardinality(Cases)>>)
 ASSUME JsonSerialize(IOEnv.OUT_FILE, SetToSeq(Cases))
 
-VARIABLE dummy
-Init == dummy = 0
-Next == UNCHANGED dummy
-Spec == Init /\ [][Next]_dummy
+\* one TLC state per case: the laws are state invariants evaluated on every case
+Init == cur \in Cases
+Next == UNCHANGED cur
+Spec == Init /\ [][Next]_cur
 =============================================================================
